@@ -1,0 +1,23 @@
+//go:build verif
+
+// Verification hooks (add-only, compiled only with -tags verif).
+package workercmd
+
+import (
+	"net/http"
+	"time"
+
+	"github.com/sassoftware/relic/v8/token"
+	"github.com/sassoftware/relic/v8/token/tokencache"
+)
+
+// VerifHandler builds the worker's HTTP handler around an arbitrary token.
+func VerifHandler(tok token.Token, cookie string, expiry time.Duration, shutdown func()) http.Handler {
+	if shutdown == nil {
+		shutdown = func() {}
+	}
+	return &handler{token: tokencache.New(tok, expiry), cookie: []byte(cookie), shutdown: shutdown}
+}
+
+// VerifPkcs11Error builds a token error of the worker's pkcs11 error type.
+func VerifPkcs11Error(code uint) error { return pkcs11Error(code) }
